@@ -21,9 +21,12 @@ NZ = lambda x: x != K(0, x.size())
 bit = lambda x, j: z3.Extract(j, j, x) == K(1, 1)
 def updown(cnt, up, down):
     return z3.If(z3.And(up, z3.Not(down)), cnt + 1, z3.If(z3.And(down, z3.Not(up), NZ(cnt)), cnt - 1, cnt))
+def geq(g, i):
+    """grant register designates master i (False when the register cannot even hold i: the code under contract changed shape)"""
+    return (g == K(i, g.size())) if i < (1 << g.size()) else z3.BoolVal(False)
 def sel_by(grant, sigs):
     r = sigs[-1]
-    for i in reversed(range(len(sigs) - 1)): r = z3.If(grant == K(i, grant.size()), sigs[i], r)
+    for i in reversed(range(len(sigs) - 1)): r = z3.If(geq(grant, i), sigs[i], r)
     return r
 def timer_regs(h, cycles):
     """the down-counters of the WaitTimers (looked up by shape: reset value = cycles)"""
@@ -76,13 +79,13 @@ def c_wb_shared_to(nm, ns, register, rset, T):
     h.ensure("ens.fwd", z3.And(*[V(getattr(slaves[j], nme)) == g(nme) for j in range(ns) for nme in M2S if nme != "cyc"]))
     S = "@no-err-while-timer-runs"
     for i, m in enumerate(masters):
-        owner = (grant == K(i, grant.size())) if grant_sig is not None else z3.BoolVal(True)
+        owner = geq(grant, i) if grant_sig is not None else z3.BoolVal(True)
         # C06 resp + C11: the owner (and no other master) sees the slaves' ack/err, or the forced termination exactly when its request has waited T cycles
         h.ensure(f"ens.resp{i}" + S, z3.Implies(clean, z3.And(b(V(m.ack)) == z3.And(owner, z3.Or(anyack, expired)), b(V(m.err)) == z3.And(owner, anyerr))))
         h.ensure(f"ens.resp-only-owner{i}", z3.Implies(z3.Not(owner), z3.And(z3.Not(b(V(m.ack))), z3.Not(b(V(m.err))))))
         # exactly one termination, only for a pending request of this master
         h.ensure(f"ens.once{i}" + S, z3.Implies(z3.And(clean, z3.Or(b(V(m.ack)), b(V(m.err)))), wb_req(h, m)))
-        if grant_sig is not None: h.ensure(f"ens.own{i}", z3.Implies(z3.And(owner, b(V(m.cyc))), h.n(grant_sig) == K(i, grant.size())))
+        if grant_sig is not None: h.ensure(f"ens.own{i}", z3.Implies(z3.And(owner, b(V(m.cyc))), geq(h.n(grant_sig), i)))
         # C11: forced termination = ack + all-ones data + error pulse, within T cycles after the grant; never earlier
         h.ensure(f"ens.term{i}" + S, z3.Implies(z3.And(clean, owner, expired), z3.And(b(V(m.ack)), V(m.dat_r) == ones, error)))
         h.ensure(f"ens.undisturbed{i}" + S, z3.Implies(z3.And(clean, owner, z3.Not(expired)), z3.And(b(V(m.ack)) == anyack, b(V(m.err)) == anyerr, z3.Not(error))))
@@ -90,8 +93,8 @@ def c_wb_shared_to(nm, ns, register, rset, T):
     h.ensure("ens.error-only-on-expiry" + S, z3.Implies(clean, error == expired))
     h.ensure_seq("ens.recover" + S, lambda at: z3.Implies(z3.And(at(clean, 0), at(expired, 0)), z3.And(at(w == K(0, GW), 1), at(clean, 1))))
     # ---- C06 data: read data of the answering slave (register=True: for a request that was already pending in the previous cycle)
-    p_cont = h.prev("cont", bv1(greq)); p_adr = h.prev("gadr", gadr); p_grant = h.prev("grant", zx(grant, 2))
-    continuing = z3.And(b(p_cont), p_adr == gadr, p_grant == zx(grant, 2))
+    p_cont = h.prev("cont", bv1(greq)); p_adr = h.prev("gadr", gadr); p_grant = h.prev("grant", grant)
+    continuing = z3.And(b(p_cont), p_adr == gadr, p_grant == grant)
     ssr = L(d.decoder, "slave_sel_r") if hasattr(d, "decoder") else None
     if register and ssr is not None and ssr in h.ts.var and V(ssr).size() == ns:
         for j in range(ns): h.hint(f"selr{j}", z3.Implies(b(p_cont), bit(V(ssr), j) == match(regions[j], p_adr)))
@@ -108,7 +111,7 @@ def c_wb_shared_to(nm, ns, register, rset, T):
     WHAT = ("wishbone.Timeout arms its WaitTimer with stb&cyc&~ack: a request terminated by ERR does not reload the timer. If the owner (or the next owner) "
             "continues with a new request in the next cycle, that request is timed out early (forced ack, all-ones data, error pulse although its slave would answer in time); "
             "if the ERR arrives in the last waiting cycle, the forced ack/error pulse is produced in the following cycle for a request that no longer exists")
-    i0 = nm - 1; m0 = masters[i0]; own0 = (grant == K(i0, grant.size())) if grant_sig is not None else z3.BoolVal(True)
+    i0 = nm - 1; m0 = masters[i0]; own0 = geq(grant, i0) if grant_sig is not None else z3.BoolVal(True)
     h.finding(f"finding.once{i0}@after-err-termination", z3.Implies(z3.Or(b(V(m0.ack)), b(V(m0.err))), wb_req(h, m0)), WHAT)
     h.finding(f"finding.undisturbed{i0}@after-err-termination", z3.Implies(z3.And(own0, z3.Not(expired)), z3.And(b(V(m0.ack)) == anyack, z3.Not(error))), WHAT)
     h.cover("cover.ack", z3.And(b(V(masters[-1].ack)), b(V(slaves[-1].ack))), depth=4)
@@ -146,7 +149,7 @@ def c_wb_xbar_data(nm, ns, register, rset):
     for j in range(ns):
         if nm > 1: h.hint(f"grant{j}<n", ult(grants[j], nm))
     for i, m in enumerate(masters):
-        gr = [(grants[j] == K(i, grants[j].size())) if nm > 1 else z3.BoolVal(True) for j in range(ns)]
+        gr = [geq(grants[j], i) if nm > 1 else z3.BoolVal(True) for j in range(ns)]
         # the acknowledge of slave j reaches master i iff arbiter j designates i (context of the data clause)
         h.ensure(f"ens.resp{i}", z3.And(b(V(m.ack)) == z3.Or(*[z3.And(gr[j], b(V(slaves[j].ack))) for j in range(ns)]),
                                         b(V(m.err)) == z3.Or(*[z3.And(gr[j], b(V(slaves[j].err))) for j in range(ns)])))
@@ -228,23 +231,23 @@ def c_axil_xbar(nm, ns, all_responds=True):
             h.hint(f"s{j}.{dirn}.grant<n", ult(g, nm))
             h.hint(f"s{j}.{dirn}.arbcnt", zx(h.v((a.wr_lock if dirn == "wr" else a.rd_lock).counter), CW) == sc)
             # code-derived coupling of the two views: requests held by slave j belong to the granted master, which is locked on slave j
-            h.hint(f"s{j}.{dirn}.owner", z3.Implies(NZ(sc), z3.Or(*[z3.And(eqc(g, i), bit(mg[i][dirn][1], j), mg[i][dirn][0] == sc) for i in range(nm)])))
+            h.hint(f"s{j}.{dirn}.owner", z3.Implies(NZ(sc), z3.Or(*[z3.And(geq(g, i), bit(mg[i][dirn][1], j), mg[i][dirn][0] == sc) for i in range(nm)])))
             for i in range(nm):
                 cnt, tgt, _ = mg[i][dirn]
-                h.hint(f"m{i}.s{j}.{dirn}.held", z3.Implies(z3.And(NZ(cnt), bit(tgt, j)), z3.And(eqc(g, i), sc == cnt)))
+                h.hint(f"m{i}.s{j}.{dirn}.held", z3.Implies(z3.And(NZ(cnt), bit(tgt, j)), z3.And(geq(g, i), sc == cnt)))
             h.ensure(f"ens.{dirn}.s{j}.grant-exists", ult(g, nm))
             # arbitration never changes while responses are outstanding at the slave: a slave never serves two masters at once
             h.ensure(f"ens.{dirn}.s{j}.grant-lock", z3.Implies(NZ(sc), h.n(grant_of(j, dirn)) == g))
             # the response of slave j goes to a master that has unanswered requests at slave j (the issuing master)
             for i in range(nm):
                 cnt, tgt, _ = mg[i][dirn]
-                h.ensure(f"ens.{dirn}.s{j}.resp-to-issuer{i}", z3.Implies(z3.And(fire(h, getattr(s, RSP[dirn])), eqc(g, i)), z3.And(NZ(cnt), bit(tgt, j), cnt == sc)))
+                h.ensure(f"ens.{dirn}.s{j}.resp-to-issuer{i}", z3.Implies(z3.And(fire(h, getattr(s, RSP[dirn])), geq(g, i)), z3.And(NZ(cnt), bit(tgt, j), cnt == sc)))
         for i, m in enumerate(masters):
             cnt, tgt, dec = mg[i][dirn]
             for c in chans:
                 me = getattr(m, c); pairs = []
                 for j, s in enumerate(slaves):
-                    se = getattr(s, c); mine = z3.And(fire(h, se), eqc(grants[j], i)); pairs.append(mine)
+                    se = getattr(s, c); mine = z3.And(fire(h, se), geq(grants[j], i)); pairs.append(mine)
                     # a transfer at slave port j under grant i is the same transfer at master port i, unchanged (requests forward, responses back: once)
                     h.ensure(f"ens.{dirn}.{c}.m{i}s{j}.same-transfer", z3.Implies(mine, z3.And(fire(h, me), paytok(h, se) == paytok(h, me))))
                     # slave selection never changes while responses are outstanding: nothing of master i moves at any other slave
@@ -254,10 +257,10 @@ def c_axil_xbar(nm, ns, all_responds=True):
             # slave chosen by address (under the decoder's listed scenario restriction)
             req = getattr(m, REQ[dirn]); same_i = z3.Implies(NZ(cnt), dec == tgt)
             for j, s in enumerate(slaves):
-                h.ensure(f"ens.{dirn}.m{i}s{j}.by-address@same-target", z3.Implies(z3.And(fire(h, getattr(s, REQ[dirn])), eqc(grants[j], i), same_i), match(regions[j], h.v(req.addr))))
+                h.ensure(f"ens.{dirn}.m{i}s{j}.by-address@same-target", z3.Implies(z3.And(fire(h, getattr(s, REQ[dirn])), geq(grants[j], i), same_i), match(regions[j], h.v(req.addr))))
             if i == 0 and ns > 1:
                 j = 0
-                h.finding(f"finding.{dirn}.m{i}s{j}.by-address@other-target-while-outstanding", z3.Implies(z3.And(fire(h, getattr(slaves[j], REQ[dirn])), eqc(grants[j], i)), match(regions[j], h.v(req.addr))),
+                h.finding(f"finding.{dirn}.m{i}s{j}.by-address@other-target-while-outstanding", z3.Implies(z3.And(fire(h, getattr(slaves[j], REQ[dirn])), geq(grants[j], i)), match(regions[j], h.v(req.addr))),
                           "AXILiteDecoder (row of the crossbar) freezes the slave select while responses are outstanding but does not stall a new AW/AR that decodes to a different slave: the locked slave accepts it")
     # port-level statements (no internal register named) -------------------------------------------------------------------------------
     for dirn, chans in (("wr", ("aw", "w", "b")), ("rd", ("ar", "r"))):
@@ -286,9 +289,9 @@ def c_axil_xbar(nm, ns, all_responds=True):
         for j, s in enumerate(slaves):
             right = z3.If(w_due, bit(wtgt, j), z3.And(awv, match(regions[j], h.v(m.aw.addr))))
             if shape_ok:
-                h.ensure(f"ens.wr.w.m{i}s{j}.by-address@w-not-before-aw", z3.Implies(z3.And(fire(h, s.w), eqc(h.v(grant_of(j, "wr")), i), w_after_aw, same_i), right))
+                h.ensure(f"ens.wr.w.m{i}s{j}.by-address@w-not-before-aw", z3.Implies(z3.And(fire(h, s.w), geq(h.v(grant_of(j, "wr")), i), w_after_aw, same_i), right))
                 if i == 0 and j == 0 and ns > 1:
-                    h.finding("finding.wr.w.m0s0.by-address@w-before-aw", z3.Implies(z3.And(fire(h, s.w), eqc(h.v(grant_of(j, "wr")), i), same_i), right),
+                    h.finding("finding.wr.w.m0s0.by-address@w-before-aw", z3.Implies(z3.And(fire(h, s.w), geq(h.v(grant_of(j, "wr")), i), same_i), right),
                               "AXILiteDecoder (row of the crossbar) routes a W beat by the address currently on AW: a W beat that precedes its AW (legal in AXI4-Lite) is delivered to whatever slave the idle AW address decodes to")
     # every requesting master is served: master i asking for slave j is granted and can hand over its request within a bounded time, whatever the
     # other masters do at other slaves (nothing outstanding at slave j, nobody else aiming at slave j)
@@ -304,7 +307,7 @@ def c_axil_xbar(nm, ns, all_responds=True):
             coop = z3.And(b(h.v(req.valid)), match(regions[j], h.v(req.addr)), cnt == K(0, CW), sg[j][dirn] == K(0, CW), z3.Not(b(h.v(getattr(slaves[j], RSP[dirn]).valid))),
                           *[z3.Not(aims(k)) for k in range(nm) if k != i])
             sreq = getattr(slaves[j], REQ[dirn])
-            h.respond(f"resp.{dirn}.m{i}.offered-to-s{j}", coop, z3.And(eqc(h.v(grant_of(j, dirn)), i), b(h.v(sreq.valid)), paytok(h, sreq) == paytok(h, req)), 2)
+            h.respond(f"resp.{dirn}.m{i}.offered-to-s{j}", coop, z3.And(geq(h.v(grant_of(j, dirn)), i), b(h.v(sreq.valid)), paytok(h, sreq) == paytok(h, req)), 2)
     h.cover("cover.b-and-r", z3.And(fire(h, masters[-1].b), fire(h, masters[0].r)), depth=5)
     if nm > 1 and ns > 1:
         h.cover("cover.parallel-writes", z3.And(fire(h, slaves[0].w), fire(h, slaves[1].w), fire(h, masters[0].w), fire(h, masters[1].w)), depth=5)
@@ -340,7 +343,7 @@ SCEN = ("scenario S of the time-out clauses: (S1) every master has at most one r
         "(S2a) a W beat is offered together with or after its AW, (S2b) while the time-out absorbs a write the master hands over the rest of it without a pause; "
         "(S3) a slave whose write (read) side has let a request time out stays silent on that side")
 
-def c_axi_shared_to(kind, nm, ns, T, idw=1, probe=None):
+def c_axi_shared_to(kind, nm, ns, T, idw=1, findings=True):
     """shared AXI-Lite / AXI4 interconnect built WITH timeout_cycles=T.  C08: routing and response clauses as in C08_axil_ic.c_shared /
     C08_axi_full_ic.c_shared.  C11 through the interconnect, at the master ports: a request of the bus owner that stalls T cycles (silent slave,
     unmapped address) raises the error pulse and is answered with SLVERR; before that nothing is disturbed; afterwards every master is served."""
@@ -365,7 +368,7 @@ def c_axi_shared_to(kind, nm, ns, T, idw=1, probe=None):
     ghosts, w_out = A.ghosts(h, shared, slaves, regions, locks, sreg)
     GRANT = {"wr": arb.rr_write.grant, "rd": arb.rr_read.grant}
     grant = {k: h.v(v) for k, v in GRANT.items()}
-    own = lambda dirn, i: eqc(grant[dirn], i)
+    own = lambda dirn, i: geq(grant[dirn], i)
     for dirn, lk in (("wr", "wr_lock"), ("rd", "rd_lock")):
         if hasattr(arb, lk) and hasattr(getattr(arb, lk), "counter"): h.hint(f"arb.{dirn}.cnt", zx(h.v(getattr(arb, lk).counter), CW) == ghosts[dirn][0])
         h.hint(f"{dirn}.grant<n", ult(grant[dirn], nm))
@@ -435,8 +438,9 @@ def c_axi_shared_to(kind, nm, ns, T, idw=1, probe=None):
         h.hint(f"S.m{i}.resp-w", z3.Implies(z3.And(CALM, b(resp["wr"]), own("wr", i)), z3.Or(b(done[i, "aw"]), b(stall[i, "aw"]))))
         h.hint(f"S.m{i}.resp-r", z3.Implies(z3.And(CALM, b(resp["rd"]), own("rd", i)), z3.Or(b(done[i, "ar"]), b(stall[i, "ar"]))))
     ADW = h.v(masters[0].aw.addr).size()
-    def held_addr(i, ch):      # address inside the held payload token of the source environment (the address is the first payload field)
-        t = held[i, ch]; return z3.Extract(t.size() - 1, t.size() - ADW, t)
+    addr_first = all(pay(getattr(m, c))[0] is getattr(m, c).addr for m in masters for c in ("aw", "ar"))
+    def held_addr(i, ch):      # address inside the held payload token of the source environment (the address is the first payload field; otherwise the hints below are useless and get dropped)
+        t = held[i, ch]; return z3.Extract(t.size() - 1, t.size() - ADW, t) if addr_first and t.size() >= ADW else K(0, ADW)
     for j in range(ns):
         for dirn, c in (("wr", "aw"), ("rd", "ar")):
             cnt, tgt, _ = ghosts[dirn]; live = z3.Not(b(dead[j, dirn]))
@@ -491,7 +495,6 @@ def c_axi_shared_to(kind, nm, ns, T, idw=1, probe=None):
     h.ensure("ens.error-pulse", error == z3.Or(det["wr"], det["rd"]))       # the pulse that feeds the SoC bus-error counter: exactly at a detection
     for dirn in ("wr", "rd"):
         R = b(resp[dirn]); c = REQ[dirn]
-        h.ensure(f"ens.{dirn}.no-early-time-out", z3.Implies(det[dirn], z3.And(uge(wt[dirn], T), cond[dirn])))
         for i, m in enumerate(masters):
             # while the time-out responds, the owner's request is absorbed and answered with SLVERR (all-ones data, last beat)
             if dirn == "wr":
@@ -507,7 +510,8 @@ def c_axi_shared_to(kind, nm, ns, T, idw=1, probe=None):
             else: ens_s(f"ens.rd.r-answers-request{i}", z3.Implies(V(m.r.valid), b(done[i, "ar"])))
         # a stalled request of the owner is detected within T+1 cycles, whatever the slaves do; then answered within 3 cycles of a ready owner
         h.respond(f"resp.{dirn}.detect", z3.And(cond[dirn], z3.Not(R)), det[dirn], T + 1)
-    h.respond("resp.wr.term", z3.And(SC, o("wr", lambda m: V(m.b.ready))), o("wr", lambda m: z3.And(fire(h, m.b), h.v(m.b.resp) == SLVERR)), 3, start=z3.And(CALM, b(resp["wr"])))
+    # (AXI4: the rest of the burst being absorbed is its last beat - a burst of any length is absorbed beat by beat first)
+    h.respond("resp.wr.term", z3.And(SC, o("wr", lambda m: z3.And(V(m.b.ready), z3.Or(b(done[masters.index(m), "w"]), z3.And(V(m.w.valid), A.wlast(h, m)))))), o("wr", lambda m: z3.And(fire(h, m.b), h.v(m.b.resp) == SLVERR)), 3, start=z3.And(CALM, b(resp["wr"])))
     h.respond("resp.rd.term", z3.And(SC, o("rd", lambda m: V(m.r.ready))), o("rd", lambda m: z3.And(fire(h, m.r), h.v(m.r.resp) == SLVERR)), 3, start=z3.And(CALM, b(resp["rd"])))
     # an unmapped address reaches no slave and is not accepted: it stalls, so the clauses above terminate it
     for dirn in ("wr", "rd"):
@@ -520,7 +524,7 @@ def c_axi_shared_to(kind, nm, ns, T, idw=1, probe=None):
         idle = z3.And(*[z3.Not(b(done[i, c])) for i in range(nm)])
         regs = [getattr(arb, lk).counter] if hasattr(arb, lk) and hasattr(getattr(arb, lk), "counter") else []
         if locks is not None: regs.append(locks[{"wr": "write", "rd": "read"}[dirn]].counter)
-        ens_s(f"ens.{dirn}.locks-released", z3.Implies(idle, z3.And(ghosts[dirn][0] == K(0, CW), z3.Not(b(resp[dirn])) if False else z3.BoolVal(True), *[h.v(r) == K(0, h.v(r).size()) for r in regs])))
+        ens_s(f"ens.{dirn}.locks-released", z3.Implies(idle, z3.And(ghosts[dirn][0] == K(0, CW), *[h.v(r) == K(0, h.v(r).size()) for r in regs])))
         # ... and every master is then granted within 2 cycles (from ANY reachable state, in particular after any number of time-outs)
         chs = ("aw", "w") if dirn == "wr" else ("ar",)
         for i, m in enumerate(masters):
@@ -529,14 +533,14 @@ def c_axi_shared_to(kind, nm, ns, T, idw=1, probe=None):
             h.respond(f"resp.{dirn}.serve{i}", z3.And(SC, V(getattr(m, c).valid), others_idle, idle, z3.Not(b(resp[dirn])), no_rsp), own(dirn, i), 2, start=CALM)
     # ================================================ findings (scenario S is not a convenience) ====================================
     il = nm - 1; ml = masters[il]
-    if probe != "noS1":
+    if findings:
         h.finding("finding.wr.b-to-owner@several-outstanding", z3.Implies(scen("S2a", "S2b", "S3"), z3.And(*[z3.Implies(z3.And(fire(h, s.b), own("wr", il)), z3.And(fire(h, ml.b), h.v(ml.b.resp) == h.v(s.b.resp))) for s in slaves])),
                   f"{A.TO} on the shared bus with several requests outstanding (legal): a later AW that stalls is timed out while the slave still owes B for an earlier write; while the time-out responds the slave's B is "
                   "swallowed or replaced by the synthesised SLVERR (b.valid/b.resp are overridden, b.ready still reaches the slave): one response is lost, the request counters of arbiter and decoder never return to 0 and the write grant stays locked")
-    h.finding("finding.wr.b-answers-request@w-after-aw-pause", z3.Implies(scen("S1", "S2a", "S3"), z3.Implies(fire(h, ml.b), z3.And(b(done[il, "aw"]), b(done[il, "w"])))),
+    if findings: h.finding("finding.wr.b-answers-request@w-after-aw-pause", z3.Implies(scen("S1", "S2a", "S3"), z3.Implies(fire(h, ml.b), z3.And(b(done[il, "aw"]), b(done[il, "w"])))),
               f"{A.TO} sends the synthesised B as soon as neither AW nor W is offered (b.valid = ~aw.valid & ~w.valid), not after both were received: a master whose W follows its AW by a cycle (or whose W precedes its AW, or that pauses "
               "inside a burst) gets the SLVERR B before it has handed over the write; the rest then stalls again and is timed out a second time (two B for one write)")
-    h.finding("finding.rd.r-answers-request@slave-accepts-while-absorbed", z3.Implies(scen("S1", "S2a", "S2b"), z3.Implies(V(ml.r.valid), b(done[il, "ar"]))),
+    if findings: h.finding("finding.rd.r-answers-request@slave-accepts-while-absorbed", z3.Implies(scen("S1", "S2a", "S2b"), z3.Implies(V(ml.r.valid), b(done[il, "ar"]))),
               f"{A.TO} overrides ar.ready/r.valid of the shared bus but the decoder still presents ar.valid to the selected slave: a slow slave that accepts the AR in the cycle it is absorbed answers it later, "
               "and that R is delivered as an unsolicited (or, for the next read, wrong) response")
     # ================================================ covers ========================================================================
@@ -544,13 +548,73 @@ def c_axi_shared_to(kind, nm, ns, T, idw=1, probe=None):
     h.cover("cover.wr.time-out.answered", z3.And(SC, b(resp["wr"]), fire(h, ml.b), h.v(ml.b.resp) == SLVERR), depth=T + 5)
     h.cover("cover.rd.time-out.unmapped", z3.And(SC, det["rd"], *[z3.Not(match(r, o("rd", lambda m: h.v(m.ar.addr)))) for r in regions]), depth=T + 3)
     h.cover("cover.recovered.other-master-write", z3.And(SC, b(seen), fire(h, masters[0].b), fire(h, slaves[-1].b), z3.Not(b(resp["wr"]))), depth=T + 8)
-    h.bmc_depth = T + 8; h.bmc_time = 120
+    h.bmc_depth = T + 8; h.bmc_time = 30
+    # the clauses that come with a short witness when the time-out / lock machinery is broken are decided first (a broken variant must be rejected with a
+    # VIOLATION within the case's time limit, not leave the case undecided after many fruitless witness searches)
+    first = [k for k in h.ensures if any(t in k for t in ("locks-released", ".respond", "error-pulse", "answers-request", "unmapped-stalls", "only-owner"))]
+    h.ensures = {**{k: h.ensures[k] for k in first}, **{k: v for k, v in h.ensures.items() if k not in first}}
     h.use_auto = False
     h.functions = [f"litex.soc.interconnect.axi.{A.mod}.{A.name}.__init__ (timeout_cycles given)", f"litex.soc.interconnect.axi.{A.mod}.{A.TO}.__init__",
                    f"litex.soc.interconnect.axi.{A.mod}.{'AXIArbiter' if full else 'AXILiteArbiter'}.__init__", f"litex.soc.interconnect.axi.{A.mod}.{'AXIDecoder' if full else 'AXILiteDecoder'}.__init__",
                    "litex.gen.genlib.misc.WaitTimer.__init__"]
     return h
 
-def cases(tier):
-    cs = [Case("wb.shared(2x2,register=False,regions=A,timeout=4)", c_wb_shared_to, 2, 2, False, "A", 4)]
+def c_axil_xbar_timeout(nm, ns, T):
+    """C11 on the crossbar: AXILiteCrossbar takes timeout_cycles but builds no time-out (as wishbone.Crossbar, listed): a read of a silent slave is never answered"""
+    masters = [mkl() for _ in range(nm)]; slaves = [mkl() for _ in range(ns)]; regions = LITE.regions_for(ns)
+    d = mk(AXILiteCrossbar, masters, [(r.decoder(LITE.Bus), s) for r, s in zip(regions, slaves)], False, T)
+    ins = []
+    for m in masters: ins += master_side_inputs(m)
+    for s in slaves: ins += slave_side_inputs(s)
+    h = HwCheck(f"AXILiteCrossbar({nm}x{ns},timeout={T})", d, ins)
+    for i, m in enumerate(masters):
+        for ch in ("aw", "w", "ar"): src_env(h, getattr(m, ch), f"m{i}{ch}")
+    m = masters[0]; LIM = T + 4 + 2 * nm; GW = LIM.bit_length() + 1
+    w = h.ghost("ar_waiting", GW); stalled = z3.And(b(h.v(m.ar.valid)), z3.Not(b(h.v(m.ar.ready))))
+    h.ghost_next(w, z3.If(stalled, z3.If(uge(w, LIM), w, w + 1), K(0, GW)))
+    h.finding("finding.crossbar-no-timeout", ult(w, LIM), "AXILiteCrossbar accepts timeout_cycles but instantiates no AXILiteTimeout: a request to a silent slave (or an unmapped address) waits for ever")
+    h.cover("cover.ar-stalled", stalled, depth=2)
+    h.bmc_depth = LIM + 2
+    h.functions = ["litex.soc.interconnect.axi.axi_lite.AXILiteCrossbar.__init__ (timeout_cycles ignored)"]
+    return h
+
+def cases_for(prop, tier):
+    """C08: AXILiteCrossbar (routing / exactly-once / served);  C11: every interconnect built WITH a time-out (AXI-Lite / AXI4 shared, AXILiteCrossbar with
+    timeout_cycles, wishbone shared);  C06: wishbone Crossbar(register=True) read data"""
+    cs = []
+    LIM = 1500     # wall-clock limit of a case: < 60 s on the unchanged tree; a broken variant needs one witness search per failing clause
+    if prop == "C08":
+        cs += [Case(f"AXILiteCrossbar({nm}x{ns})", c_axil_xbar, nm, ns) for nm, ns in ((2, 2), (2, 3), (3, 2))]
+        if tier == "thorough": cs += [Case(f"AXILiteCrossbar({nm}x{ns})", c_axil_xbar, nm, ns) for nm, ns in ((3, 3), (1, 3), (3, 1))]
+    if prop == "C11":
+        cs.append(Case("AXILiteCrossbar(2x2,timeout=4)", c_axil_xbar_timeout, 2, 2, 4))
+        cs += [Case("AXILiteInterconnectShared(2x2,timeout=4)", c_axi_shared_to, "lite", 2, 2, 4, timeout=LIM),
+               Case("AXILiteInterconnectShared(3x2,timeout=8,no-finding-clauses)", c_axi_shared_to, "lite", 3, 2, 8, 1, False, timeout=LIM),
+               Case("AXIInterconnectShared(2x2,timeout=4,id_width=2)", c_axi_shared_to, "full", 2, 2, 4, 2, timeout=LIM),
+               Case("AXIInterconnectShared(2x3,timeout=8,id_width=1,no-finding-clauses)", c_axi_shared_to, "full", 2, 3, 8, 1, False, timeout=LIM)]
+        for nm, ns, register, rset, T in ((2, 2, False, "A", 4), (2, 3, True, "B", 3), (3, 2, False, "C", 8), (1, 2, True, "A", 1), (3, 3, True, "C", 4)):
+            cs.append(Case(f"wishbone.shared({nm}x{ns},register={register},regions={rset},timeout={T})", c_wb_shared_to, nm, ns, register, rset, T))
+        if tier == "thorough":
+            cs += [Case("AXILiteInterconnectShared(3x3,timeout=8)", c_axi_shared_to, "lite", 3, 3, 8, timeout=LIM), Case("AXILiteInterconnectShared(1x2,timeout=1)", c_axi_shared_to, "lite", 1, 2, 1, timeout=LIM),
+                   Case("AXIInterconnectShared(2x2,timeout=8,id_width=2)", c_axi_shared_to, "full", 2, 2, 8, 2, timeout=LIM), Case("AXIInterconnectShared(3x2,timeout=4,id_width=1)", c_axi_shared_to, "full", 3, 2, 4, 1, timeout=LIM),
+                   Case("wishbone.shared(3x3,register=False,regions=B,timeout=16)", c_wb_shared_to, 3, 3, False, "B", 16)]
+    if prop == "C06":
+        for k, (nm, ns) in enumerate(((2, 2), (2, 3), (3, 2), (1, 3), (3, 3))):
+            cs.append(Case(f"crossbar({nm}x{ns},register=True,regions={'ABC'[k % 3]}).data", c_wb_xbar_data, nm, ns, True, "ABC"[k % 3]))
+        if tier == "thorough": cs.append(Case("crossbar(2x3,register=False,regions=B).data", c_wb_xbar_data, 2, 3, False, "B"))
     return cs
+
+def cases(tier):
+    import os
+    if os.environ.get("VERIF_MODULE"): return cases_for("C08", tier) + cases_for("C11", tier) + cases_for("C06", tier)      # dev mode: everything
+    return cases_for("C08", tier)
+
+ASSUMPTIONS = ["AXI4-Lite / AXI4-legal partners as stated per case (valid/payload/last stable until ready; a slave answers only requests it has received at its own port; B only after AW and the last W beat); "
+               "fewer than 200 requests outstanding per direction",
+               "AXILiteCrossbar: slave chosen by address under the decoder's two listed scenario restrictions (no request to another slave while responses are outstanding; W not before its AW); "
+               "'every master is served' is decided as bounded response (nothing outstanding at the slave, nobody else aiming at it)",
+               "shared AXI(-Lite) interconnect with time-out: the response, by-address, exactly-once and recovery clauses carry the " + SCEN + "; each part is shown necessary by a finding clause with a natively "
+               "replayed witness (tools/replay_axi_shared_timeout.py); the clauses without @S hold for every legal schedule",
+               "AXI4 cases use the geometry of C08_axi_full_ic.py (12-bit addresses, 16-bit data; id_width 1 or 2) so that its ghosts/clauses are reused unchanged; with id_width=2 everything except the ID is proved (listed finding)",
+               "wishbone shared interconnect with time-out: Wishbone-classic masters (request held until ack or err) and slaves that answer only a presented cyc&stb; the termination/transparency clauses carry the scenario "
+               "'no ERR termination while the timer runs' (finding: wishbone.Timeout ignores err, tools/replay_wb_timeout_err.py); register=True read data for requests pending since the previous cycle (first-cycle ack = listed finding)"]
